@@ -6,6 +6,7 @@ import (
 	"errors"
 	"fmt"
 	"net/url"
+	"os"
 	"slices"
 	"strings"
 	"testing"
@@ -14,6 +15,7 @@ import (
 	jose "github.com/go-jose/go-jose/v4"
 	"github.com/zitadel/oidc/v3/pkg/client"
 	"github.com/zitadel/oidc/v3/pkg/client/profile"
+	"github.com/zitadel/oidc/v3/pkg/client/rp"
 	"github.com/zitadel/oidc/v3/pkg/client/rs"
 	"github.com/zitadel/oidc/v3/pkg/client/tokenexchange"
 	"github.com/zitadel/oidc/v3/pkg/oidc"
@@ -384,11 +386,99 @@ func (c *c14) helperInterop(ch *kernel.Chooser) string {
 	ck := w.ClientKeys["jwt"]
 	hc := w.Net.Client("helper", nil, false)
 	ctx := context.Background()
-	which := ch.Int(5)
-	name := []string{"profile.TokenSource", "client.SignedJWTProfileAssertion+jwt-bearer", "rs.NewResourceServerJWTProfile+Introspect", "tokenexchange.JWTProfile", "client assertion at code exchange"}[which]
+	which := ch.Int(10)
+	name := []string{"profile.TokenSource", "client.SignedJWTProfileAssertion+jwt-bearer", "rs.NewResourceServerJWTProfile+Introspect", "tokenexchange.JWTProfile", "client assertion at code exchange",
+		"oidc.GenerateJWTProfileToken(NewJWTProfileAssertion)", "oidc.NewJWTProfileAssertionStringFromFileData", "profile.NewJWTProfileTokenSourceFromKeyFileData", "rs.NewResourceServerFromKeyFile+Introspect",
+		"rp.SignerFromKeyFile+client.SignedJWTProfileAssertion"}[which]
 	var err error
 	applicable := true
+	// the key file formats the helpers read (service account: userId; application: clientId)
+	keyJSON := func(kind string) []byte {
+		m := map[string]string{"type": kind, "keyId": ck.KeyID, "key": string(rsaPEM(ck))}
+		if kind == "application" {
+			m["clientId"] = "jwt"
+		} else {
+			m["userId"] = "jwt"
+		}
+		b, _ := json.Marshal(m)
+		return b
+	}
+	// an assertion goes where the helper's user would send it: as jwt-bearer grant, or as client authentication
+	present := func(a string) error {
+		if ch.Bool(1, 2) || len(c.jwtTokens) == 0 {
+			r := w.PostForm("/oauth/token", url.Values{"grant_type": {string(oidc.GrantTypeBearer)}, "assertion": {a}}, world.Creds{Mode: "none"})
+			if _, ok := isTokenSuccess(r); !ok {
+				return fmt.Errorf("jwt-bearer grant: status %d %s", r.Status, firstLine(r.Body))
+			}
+			return nil
+		}
+		if !w.Conf.AuthMethodPrivateKeyJWT {
+			applicable = false
+			return nil
+		}
+		r := w.PostForm("/oauth/introspect", url.Values{"token": {c.jwtTokens[0].access}}, world.Creds{Mode: "assertion", Assertion: a})
+		if r.Status != 200 {
+			return fmt.Errorf("client assertion at introspection: status %d %s", r.Status, firstLine(r.Body))
+		}
+		return nil
+	}
 	switch which {
+	case 5:
+		var a string
+		var opts []oidc.AssertionOption
+		if ch.Bool(1, 3) {
+			opts = append(opts, oidc.JWTProfileCustomClaim("purpose", "sim"))
+		}
+		a, err = oidc.GenerateJWTProfileToken(oidc.NewJWTProfileAssertion("jwt", ck.KeyID, []string{w.Issuer}, rsaPEM(ck), opts...))
+		if err == nil {
+			err = present(a)
+		}
+	case 6:
+		var a string
+		a, err = oidc.NewJWTProfileAssertionStringFromFileData(keyJSON("serviceaccount"), []string{w.Issuer})
+		if err == nil {
+			err = present(a)
+		}
+	case 7:
+		var ts profile.TokenSource
+		ts, err = profile.NewJWTProfileTokenSourceFromKeyFileData(ctx, w.Issuer, keyJSON("serviceaccount"), []string{"openid"}, profile.WithHTTPClient(hc))
+		if err == nil {
+			_, err = ts.TokenCtx(ctx)
+		}
+	case 8:
+		if len(c.jwtTokens) == 0 {
+			return "helper interop: no token"
+		}
+		f, ferr := os.CreateTemp("", "verif-keyfile-*.json")
+		if ferr != nil {
+			return "helper interop: no temporary file"
+		}
+		f.Write(keyJSON("application"))
+		f.Close()
+		defer os.Remove(f.Name())
+		var server rs.ResourceServer
+		server, err = rs.NewResourceServerFromKeyFile(ctx, w.Issuer, f.Name(), rs.WithClient(hc))
+		if err == nil {
+			var resp *oidc.IntrospectionResponse
+			resp, err = rs.Introspect[*oidc.IntrospectionResponse](ctx, server, c.jwtTokens[0].access)
+			if err == nil && resp == nil {
+				err = fmt.Errorf("nil response")
+			}
+		}
+	case 9:
+		var signer jose.Signer
+		if ch.Bool(1, 2) {
+			signer, err = rp.SignerFromKeyFile(keyJSON("application"))()
+		} else {
+			signer, err = rp.SignerFromKeyAndKeyID(rsaPEM(ck), ck.KeyID)()
+		}
+		if err == nil {
+			var a string
+			a, err = client.SignedJWTProfileAssertion("jwt", []string{w.Issuer}, time.Hour, signer)
+			if err == nil {
+				err = present(a)
+			}
+		}
 	case 0:
 		var ts profile.TokenSource
 		ts, err = profile.NewJWTProfileTokenSource(ctx, w.Issuer, "jwt", ck.KeyID, rsaPEM(ck), []string{"openid"}, profile.WithHTTPClient(hc))
